@@ -82,6 +82,7 @@ def bip32Op : List String → Option String
   | "bip32.valid" :: x => do
     pure (match assertValid (envOf hmacSha512) (← xkeyOf x) with | .ok _ => "ok" | .error e => "err " ++ e.name)
   | ["bip32.root", seed, ver] => do pure (rX (rootFromSeed (envOf hmacSha512) (← fromHex? seed) (← fromHex? ver)))
+  | ["bip32.rootm", mac, seed, ver] => do pure (rX (rootFromSeed (envOf (← macOf mac)) (← fromHex? seed) (← fromHex? ver)))
   | "bip32.crack" :: mac :: v :: d :: fp :: i :: cc :: k :: c => do
     pure (rX (crack (envOf (← macOf mac)) (← xkeyOf [v, d, fp, i, cc, k]) (← xkeyOf c)))
   | "bip32.account" :: v :: d :: fp :: i :: cc :: k :: [branch, addr, only01, mx] => do
